@@ -22,7 +22,7 @@ pub fn par_for(n: usize, f: impl Fn(usize) + Sync) {
     let next = AtomicUsize::new(0);
     std::thread::scope(|s| {
         for _ in 0..workers().min(n.max(1)) {
-            s.spawn(|| {
+            std::thread::Builder::new().stack_size(crate::common::WORKER_STACK).spawn_scoped(s, || {
                 loop {
                     let i = next.fetch_add(1, Ordering::SeqCst);
                     if i >= n {
@@ -34,7 +34,7 @@ pub fn par_for(n: usize, f: impl Fn(usize) + Sync) {
                         PANICS.lock().unwrap().push((i, msg));
                     }
                 }
-            });
+            }).expect("spawn worker");
         }
     });
 }
